@@ -133,6 +133,20 @@ func chainNil(v reflect.Value) bool {
 	return !v.IsValid()
 }
 
+// lossyInt: a top-level unnamed integer beyond 2^53 (becomes a JS primitive Number, which cannot hold it).
+func lossyInt(v reflect.Value) bool {
+	if !unnamed(v.Type()) {
+		return false
+	}
+	switch v.Kind() {
+	case reflect.Int, reflect.Int64:
+		return v.Int() > 1<<53 || v.Int() < -(1<<53)
+	case reflect.Uint, reflect.Uint64:
+		return v.Uint() > 1<<53
+	}
+	return false
+}
+
 // law1: Export(ToValue(arg)) against the documented mapping.
 func law1(av reflect.Value, exp interface{}) (ok bool, why string, cell string) {
 	ev := reflect.ValueOf(exp)
@@ -164,12 +178,24 @@ func law1(av reflect.Value, exp interface{}) (ok bool, why string, cell string) 
 		}
 	case reflect.Int, reflect.Int8, reflect.Int16, reflect.Int32, reflect.Int64:
 		if unnamed(t) {
+			x := av.Int()
+			if x > 1<<53 || x < -(1<<53) {
+				// not representable as a Number: the nearest double (or the exact integer) is all a JS primitive can hold
+				if f, isF := exp.(float64); isF {
+					return f == float64(x), "integers beyond 2^53 become the nearest Number", t.Kind().String() + ">2^53"
+				}
+			}
 			i, isInt := exp.(int64)
-			return isInt && i == av.Int(), "integer kinds export as int64", t.Kind().String()
+			return isInt && i == x, "integer kinds export as int64", t.Kind().String()
 		}
 	case reflect.Uint, reflect.Uint8, reflect.Uint16, reflect.Uint32, reflect.Uint64:
 		if unnamed(t) {
 			u := av.Uint()
+			if u > 1<<53 && u <= math.MaxInt64 {
+				if f, isF := exp.(float64); isF {
+					return f == float64(u), "integers beyond 2^53 become the nearest Number", t.Kind().String() + ">2^53"
+				}
+			}
 			if u <= math.MaxInt64 {
 				i, isInt := exp.(int64)
 				return isInt && uint64(i) == u, "unsigned kinds up to MaxInt64 export as int64", t.Kind().String()
@@ -237,8 +263,8 @@ func runRoundtrip(c *core.Ctx) core.Result {
 		if form == "value" {
 			arg = p.Elem().Interface()
 		} else {
-			if t.K == "iface" || t.K == "bigint" {
-				continue // *interface{} / **big.Int: outside the documented mapping
+			if t.K == "iface" || t.K == "bigint" || t.K == "func" {
+				continue // *interface{} / **big.Int / *func: outside the documented mapping
 			}
 			arg = p.Interface()
 		}
@@ -268,6 +294,9 @@ func runRoundtrip(c *core.Ctx) core.Result {
 			checked++
 			if err != nil {
 				return fail(form, "exportto-own-type", fmt.Sprintf("ExportTo(ToValue(x), &%s) failed: %v", av.Type(), err), "exportto-own-type:error:"+cell)
+			}
+			if chainNil(av) && chainNil(tv.Elem()) || lossyInt(av) {
+				continue // nil converts to null (zero value back); integers beyond 2^53 are not representable as Numbers
 			}
 			if !deepEq(tv.Elem(), av, 0) {
 				return fail(form, "exportto-own-type", fmt.Sprintf("ExportTo(ToValue(x), &%s) = %s, not deep-equal to x", av.Type(), core.Trunc(fmt.Sprintf("%+v", tv.Elem().Interface()), 500)), "exportto-own-type:differs:"+cell)
@@ -398,7 +427,10 @@ func litOfValue(v reflect.Value, mapper int, depth int) (string, bool) {
 			return "", false
 		}
 		if v.IsNil() {
-			return "null", true
+			if t == typSimpleMap {
+				return "null", true
+			}
+			return "{}", true // nil and empty maps show alike
 		}
 		var parts []string
 		it := v.MapRange()
@@ -416,7 +448,7 @@ func litOfValue(v reflect.Value, mapper int, depth int) (string, bool) {
 			return "", false
 		}
 		if v.Kind() == reflect.Slice && v.IsNil() {
-			return "null", true
+			return "[]", true // nil and empty slices show alike
 		}
 		var parts []string
 		for i := 0; i < v.Len(); i++ {
